@@ -23,10 +23,13 @@ RULE = ("seeded op sequences on direct and bucketed k-mer tables (alphabets of 2
         "merge, pickle, match/match_table/match_kmer_selection/count/get_kmers/__getitem__) and on the minimizer/"
         "syncmer/cached-syncmer/min-code selectors with identity, LCG, frequency and table permutations (incl. "
         "INT64_MAX keys); plus a malformed stream (wrong-length masks, out-of-range codes, short queries) and "
-        "ScoreThresholdRule vs brute force. non-trivial = at least one non-empty result or an error branch; "
+        "ScoreThresholdRule vs brute force, similarity rules combined with query and reference ignore masks on "
+        "both table kinds (match and match_table), and long k-mers (DNA k=16,17,20,31; 20 letters k=7,8,13: "
+        "create_kmers vs direct fuse, bucketed match/count/match_table). non-trivial = at least one non-empty result or an error branch; "
         "distinct = different op list")
 TRUSTED = ["numpy fancy indexing / argsort / where, pickle: modelled by documented semantics",
-           "ScoreThresholdRule.similar_kmers is not modelled in Lean: tied by brute-force enumeration in the oracle only"]
+           "ScoreThresholdRule.similar_kmers is modelled at specification level only (all k-mers whose score reaches the "
+           "threshold); its pruning search is tied to that by correspondence and the brute-force oracle"]
 ASSUMPTIONS = ["k-mer codes, positions and reference ids are unbounded naturals in the model (int64/uint32 wrap-around "
                "is not modelled; the generator keeps n^k < 2^63 and positions < 2^32)",
                "MincodeSelector threshold is compared exactly (rational) in the model; float64 rounding of the "
@@ -37,12 +40,15 @@ LEVEL_TEXT = ("proof for all inputs (Lean 4, no size bound, no sorry): the two-p
               "of every window, for every alphabet the constructor accepts), from_positions and from_tables yield "
               "the canonical table of their input; match / match_kmer_selection / match_table (join over equal "
               "k-mers) / count / count() / get_kmers membership / the per-k-mer scan return exactly the stored "
-              "entries with an equal k-mer, unmasked; pickle round trip on the word layout; contiguous mask; "
+              "entries with an equal k-mer, unmasked; match exactness is one theorem with the similarity rule as "
+              "a parameter (identical k-mers, or similar under a supplied rule, masked positions excluded; "
+              "ScoreThresholdRule at specification level); pickle round trip on the word layout; contiguous mask; "
               "minimizer for every window >= 1 and all keys < INT64_MAX (forward/reverse arg-cum-min = leftmost "
               "window minimum, dedup as in the code); syncmer selection on top of it; min-code threshold. PARTIAL: "
               "BucketKmerTable.__getitem__ only for k-mer codes < 2^32 (defect witness otherwise); min-code with a "
               "non-identity permutation and float64 threshold rounding, ascending order of get_kmers, "
-              "CachedSyncmerSelector and ScoreThresholdRule are tied by correspondence / brute-force oracle only. "
+              "CachedSyncmerSelector and the pruning search of ScoreThresholdRule.similar_kmers are tied by "
+              "correspondence / brute-force oracle only. "
               "Five .pyx defects are modelled as written (_defect witnesses) and listed as known findings.")
 LEVEL_NOTE = ("ScoreThresholdRule.similar_kmers, numpy and pickle are exercised (oracle / correspondence), not proved; "
               "C memory safety beyond the proved capacity invariant is trusted")
@@ -227,6 +233,18 @@ def ref_minimizer(order, kmers, w):
     return [(p, kmers[p]) for p in out]
 
 
+def _ref_similar(n, k, mat, thr):
+    """ScoreThresholdRule from the property statement: total substitution score of the two k-mers >= threshold."""
+    m = [int(x) for x in mat.split(",")]
+
+    def digits(q):
+        return [(q // n ** (k - 1 - j)) % n for j in range(k)]
+
+    def sim(q1, q2):
+        return sum(m[a * n + b] for a, b in zip(digits(q1), digits(q2))) >= thr
+    return sim
+
+
 def ref_sync_offsets(window, offs):
     norm = [window + o if o < 0 else o for o in offs]
     if any(o >= window or o < 0 for o in norm) or len(set(norm)) != len(norm):
@@ -292,6 +310,11 @@ def _run_ops(ops):
             return align.FrequencyPermutation(kalph, i64(_parse_nats(vals)))
         return TablePermutation([int(x) for x in vals.split(",")] if vals != "_" else [])
 
+    def mkrule(mat, thr):
+        n = st["n"]
+        m = np.array([int(x) for x in mat.split(",")], dtype=np.int32).reshape(n, n)
+        return align.ScoreThresholdRule(align.SubstitutionMatrix(st["base"], st["base"], m), int(thr))
+
     def add(t, bucketed):
         st["tables"].append((t, bucketed))
         return f"ok {_entry_count(t, bucketed)}"
@@ -313,7 +336,7 @@ def _run_ops(ops):
             n, k = int(w[1]), int(w[2])
             sp = None if w[3] == "-" else _parse_nats(w[3])
             st.update(ka=None, n=n, k=k, sp=sp)
-            st["base"] = bseq.LetterAlphabet("ABCDEFGH"[:n])
+            st["base"] = bseq.LetterAlphabet("ABCDEFGHIJKLMNOPQRSTUVWXYZ"[:n])
             arg = sp
             if sp is not None and sp and sp == sorted(set(sp)) and sp[0] == 0 and sum(sp) % 2 == 0:
                 arg = "".join("1" if i in sp else "0" for i in range(sp[-1] + 1))   # string form of the same model
@@ -361,7 +384,7 @@ def _run_ops(ops):
                 return "no-table"
             cls = align.BucketKmerTable if ts[0][1] else align.KmerTable
             return add(cls.from_tables([t for t, _ in ts]), ts[0][1])
-        if c in ("pickle", "dump", "match", "matchsel", "count", "getkmers", "get"):
+        if c in ("pickle", "dump", "match", "matchsim", "matchsel", "count", "getkmers", "get"):
             tb = tab(w[1])
             if tb is None:
                 return "no-table"
@@ -377,6 +400,10 @@ def _run_ops(ops):
             if c == "match":
                 mask = None if w[3] == "-" else np.array(_parse_bits(w[3]), dtype=bool)
                 return "ok " + _tuples(t.match(mkseq(_parse_nats(w[2])), ignore_mask=mask).tolist())
+            if c == "matchsim":
+                mask = None if w[3] == "-" else np.array(_parse_bits(w[3]), dtype=bool)
+                return "ok " + _tuples(t.match(mkseq(_parse_nats(w[2])), similarity_rule=mkrule(w[4], w[5]),
+                                               ignore_mask=mask).tolist())
             if c == "matchsel":
                 return "ok " + _tuples(t.match_kmer_selection(i64(_parse_nats(w[2])), i64(_parse_nats(w[3]))).tolist())
             if c == "count":
@@ -387,10 +414,12 @@ def _run_ops(ops):
                 return "ok " + _nats(t.get_kmers())
             if c == "get":
                 return "ok " + _tuples(t[int(w[2])].tolist())
-        if c in ("matchtab", "eq"):
+        if c in ("matchtab", "matchtabsim", "eq"):
             a, b = tab(w[1]), tab(w[2])
             if a is None or b is None:
                 return "no-table"
+            if c == "matchtabsim":
+                return "ok " + _tuples(a[0].match_table(b[0], similarity_rule=mkrule(w[3], w[4])).tolist())
             if c == "eq":
                 return "ok " + ("true" if a[0] == b[0] else "false")
             return "ok " + _tuples(a[0].match_table(b[0]).tolist())
@@ -604,7 +633,7 @@ def oracle(case):
                 if got != f"ok {len(exp_items)}":
                     bad(op, f"C10/{c}/entry-count", f"ok {len(exp_items)}", got, tainted)
                 continue
-            if c in ("dump", "match", "matchsel", "count", "getkmers", "get", "matchtab", "eq"):
+            if c in ("dump", "match", "matchsim", "matchsel", "count", "getkmers", "get", "matchtab", "matchtabsim", "eq"):
                 i = int(w[1])
                 if i >= len(tables):
                     continue
@@ -625,6 +654,32 @@ def oracle(case):
                         tainted = tainted or (sp is not None and mask is not None and any(mask))
                     except (ValueError, IndexError, KeyError):
                         exp = "ERR"
+                elif c == "matchsim":
+                    seq = _parse_nats(w[2])
+                    mask = None if w[3] == "-" else _parse_bits(w[3])
+                    sim = _ref_similar(n, k, w[4], int(w[5]))
+                    try:
+                        if len(seq) < k:
+                            raise ValueError
+                        qk = ref_kmers(n, k, sp, seq)
+                        keep = ref_kmer_keep(k, sp, mask, len(seq))
+                        exp = "ok " + _tuples((qi, r, p) for qi, (q, kp) in enumerate(zip(qk, keep)) if kp
+                                              for (x, r, p) in items if sim(q, x))
+                        tainted = tainted or (sp is not None and mask is not None and any(mask))
+                    except (ValueError, IndexError, KeyError):
+                        exp = "ERR"
+                elif c == "matchtabsim":
+                    j = int(w[2])
+                    if j >= len(tables):
+                        continue
+                    O = tables[j]
+                    tainted = tainted or O["tainted"]
+                    sim = _ref_similar(n, k, w[3], int(w[4]))
+                    if (T["nb"] is None) != (O["nb"] is None) or (T["nb"] is not None and min(T["nb"], size) != min(O["nb"], size)):
+                        exp = "ERR"
+                    else:
+                        exp = "ok " + _tuples((r2, p2, r1, p1) for (x2, r2, p2) in O["items"] for (x1, r1, p1) in items
+                                              if sim(x2, x1))
                 elif c == "matchsel":
                     ps, ks = _parse_nats(w[2]), _parse_nats(w[3])
                     if len(ps) != len(ks) or any(q >= size for q in ks):
@@ -777,7 +832,7 @@ def _oracle_similarity(case):
 
         import biotite.sequence as bseq
         import biotite.sequence.align as align
-        base = bseq.LetterAlphabet("ABCDEFGH"[:n])
+        base = bseq.LetterAlphabet("ABCDEFGHIJKLMNOPQRSTUVWXYZ"[:n])
 
         def mk(codes):
             s = bseq.GeneralSequence(base)
@@ -1064,6 +1119,75 @@ def _malformed_case(rng):
     return {"kind": "malformed", "ops": ops}
 
 
+def _matrix(rng, n):
+    m = [[0] * n for _ in range(n)]
+    for i in range(n):
+        for j in range(i, n):
+            m[i][j] = m[j][i] = rng.randint(-4, 4) if i != j else rng.randint(0, 6)
+    return ",".join(str(m[i][j]) for i in range(n) for j in range(n))
+
+
+def _simmask_case(rng):
+    """Similarity rule combined with ignore masks (query masks and reference masks), both table kinds."""
+    n = rng.choice([2, 3, 4])
+    k = rng.choice([2, 3])
+    nb = _nb(rng)
+    ops = [f"alph {n} {k} -"]
+    n_refs = rng.choice([1, 2, 3])
+    refs = [_seq(rng, n, k + rng.choice([0, 1, 2, 4, 6]), rng.random() < 0.5) for _ in range(n_refs)]
+    ms = None
+    if rng.random() < 0.6:
+        ms = [None if rng.random() < 0.3 else _mask(rng, len(s)) for s in refs]
+    ops.append(f"seqs {nb} - {_lists(refs)} {_masks(ms)}")
+    ops.append("dump 0")
+    mat = _matrix(rng, n)
+    for _ in range(rng.randint(1, 3)):
+        thr = rng.choice([-20, -2, 0, 1, 2, 3, 4, 6, 9, 3 * k, 6 * k, 6 * k + 1])
+        q = _seq(rng, n, k + rng.choice([0, 1, 2, 3, 5]), rng.random() < 0.5)
+        mask = _mask(rng, len(q)) if rng.random() < 0.75 else None
+        mb = _bits(mask) if mask is not None else "-"
+        ops.append(f"matchsim 0 {_nats(q)} {mb} {mat} {thr}")
+        if rng.random() < 0.3:
+            ops.append(f"match 0 {_nats(q)} {mb}")
+        if rng.random() < 0.5:
+            # the query as a (masked) table: match_table with the same rule
+            ops.append(f"seqs {nb} 9 {_nats(q)} {mb if mask is not None else '-'}")
+            ti = sum(1 for o in ops if o.startswith("seqs")) - 1
+            ops.append(f"matchtabsim 0 {ti} {mat} {thr}")
+    return {"kind": "simmask", "ops": ops}
+
+
+LONGK = [(4, 17), (4, 20), (4, 31), (20, 8), (20, 13), (4, 16), (20, 7), (5, 14)]
+
+
+def _longk_case(rng):
+    """Long k-mers (n^(k-1) beyond 32 bit): create_kmers vs direct fuse, bucketed tables match/count."""
+    n, k = rng.choice(LONGK)
+    ops = [f"alph {n} {k} -"]
+    hi = rng.random() < 0.6          # high symbol codes make the leading term large
+
+    def sq(length):
+        s = _seq(rng, n, length, rng.random() < 0.4)
+        if hi:
+            s = [c if rng.random() < 0.4 else n - 1 - rng.randrange(min(n, 2)) for c in s]
+        return s
+    ref = sq(k + rng.choice([1, 2, 3, 5, 9]))
+    ops.append(f"kmers {_nats(ref)}")
+    nb = rng.choice([1, 2, 7, 13, 101])
+    # a second reference repeating a window of the first one in another context
+    start = rng.randrange(len(ref) - k + 1)
+    ref2 = sq(rng.randint(1, 4)) + ref[start:start + k] + sq(rng.randint(0, 3))
+    ops.append(f"seqs {nb} - {_lists([ref, ref2])} -")
+    ops.append("dump 0")
+    q = sq(rng.randint(1, 3)) + ref[start:start + k] + sq(rng.randint(0, 2))
+    ops.append(f"match 0 {_nats(q)} -")
+    ops.append(f"kms {nb} - {_nats(ref_kmers(n, k, None, ref2))} -")
+    ops.append(f"matchtab 0 1")
+    ops.append(f"count 0 {_nats(ref_kmers(n, k, None, q))}")
+    ops.append(f"matchsel 0 {_nats(range(len(q) - k + 1))} {_nats(ref_kmers(n, k, None, q))}")
+    return {"kind": "longk", "ops": ops}
+
+
 def _similarity_case(rng):
     n = rng.choice([2, 3, 4])
     k = rng.choice([2, 3])
@@ -1087,6 +1211,10 @@ def cases(rng, tier):
         yield _malformed_case(rng)
     for _ in range(nsim):
         yield _similarity_case(rng)
+    for _ in range(150 if tier == "quick" else 1500):
+        yield _simmask_case(rng)
+    for _ in range(60 if tier == "quick" else 500):
+        yield _longk_case(rng)
 
 
 def corpus():
@@ -1106,6 +1234,17 @@ def corpus():
         {"kind": "selector", "ops": ["alph 2 2 -", "minim 3 - 2,2,2,2,2,2,2", "minim 3 - 3,2,1,0,1,2,3,0", "minim 4 - 1,0,0,1"]},
         {"kind": "selector", "ops": ["alph 3 3 -", "sync 2 - 0 0,1,2,0,1,2,2,1,0", "synck 2 rand 0,-1 0,5,13,26"]},
         {"kind": "mincode-dtype", "kmers": [0, 1, 2, 3]},
+        # similarity rule + ignore mask: masked query positions must stay excluded (direct and bucketed)
+        {"kind": "simmask", "ops": ["alph 2 2 -", "seqs d - 0,1,0,1 -", "matchsim 0 0,1,0 100 1,0,0,1 -5",
+                                    "seqs 3 - 0,1,0,1 0010", "matchsim 1 0,1,0 010 1,0,0,1 1",
+                                    "seqs d 9 0,1,0 100", "matchtabsim 0 2 1,0,0,1 -5"]},
+        # long k-mers: the leading term of the rolling update exceeds 32 bit
+        {"kind": "longk", "ops": ["alph 4 17 -", "kmers 3,3,3,3,3,3,3,3,3,3,3,3,3,3,3,3,3,2,1,3",
+                                  "seqs 7 - 3,3,3,3,3,3,3,3,3,3,3,3,3,3,3,3,3,2,1,3;1,3,3,3,3,3,3,3,3,3,3,3,3,3,3,3,3,2,1 -",
+                                  "dump 0", "match 0 0,3,3,3,3,3,3,3,3,3,3,3,3,3,3,3,3,2,1 -"]},
+        {"kind": "longk", "ops": ["alph 20 8 -", "kmers 19,19,19,19,19,19,19,19,19,0,5",
+                                  "seqs 2 - 19,19,19,19,19,19,19,19,19,0,5;7,19,19,19,19,19,19,19,19,0 -",
+                                  "dump 0", "count 0 25599999999,25599999980"]},
     ]
 
 
@@ -1147,7 +1286,16 @@ def search(rng, problems, tier):
     n = 1500 if tier == "quick" else 6000
     for _ in range(n):
         r = rng.random()
-        yield _table_case(rng) if r < 0.55 else _selector_case(rng) if r < 0.9 else _malformed_case(rng)
+        if r < 0.45:
+            yield _table_case(rng)
+        elif r < 0.75:
+            yield _selector_case(rng)
+        elif r < 0.82:
+            yield _malformed_case(rng)
+        elif r < 0.95:
+            yield _simmask_case(rng)
+        else:
+            yield _longk_case(rng)
 
 
 def shrink(case, key):
